@@ -80,16 +80,18 @@ def all_fields(F, name):
     return out
 
 
-def find_method(F, name, sname, pred=None):
-    """Methods called `sname` visible in record `name` (most-derived class that declares any wins)."""
+def find_method(F, name, sname, pred=None, _self=None):
+    """Methods called `sname` visible in record `name` (most-derived class that declares any wins).
+    A method found in a base is returned as a copy annotated with `_self_type`, the class it was looked up in:
+    Evaluator.run_symbolic then makes `this` an object of that class (a CRTP base casts `this` down to it)."""
     r = F.records.get(name)
     if r is None:
         return []
     ms = [f for f in F.methods(name, sname) if pred is None or pred(f)]
     if ms:
-        return ms
+        return [dict(f, _self_type=_self) for f in ms] if _self else ms
     for b in r["bases"]:
-        ms = find_method(F, F.T(b["t"]), sname, pred)
+        ms = find_method(F, F.T(b["t"]), sname, pred, _self or name)
         if ms:
             return ms
     return []
